@@ -352,10 +352,267 @@ def gen_c09(read, num):
     return lines, broken
 
 
+def _impl_body(src, header_re):
+    """Brace-balanced body of the first `impl … {` whose header matches header_re."""
+    return _fn_body(src, header_re)
+
+
+def _fns(body, prefix):
+    """{name: body} of every `fn <prefix><name>` directly in an impl body."""
+    out = {}
+    for m in re.finditer(r"\bfn\s+" + prefix + r"([a-z0-9_]*)\s*[<(]", body):
+        b = _fn_body(body[m.start():], r"\bfn\s+" + prefix + re.escape(m.group(1)) + r"\s*[<(]")
+        if b is not None and m.group(1) not in out:
+            out[m.group(1)] = b
+    return out
+
+
+def _strip(text):
+    return re.sub(r"//[^\n]*", "", text)
+
+
+def _uniq(xs):
+    out = []
+    for x in xs:
+        if x not in out:
+            out.append(x)
+    return out
+
+
+def _built(body):
+    """`OwnedTerm::X(` in construction position (match-arm patterns removed), in textual order, unique."""
+    t = re.sub(r"OwnedTerm::\w+(?:\([^()]*\))?\s*(?:if[^=]*)?=>", "", _strip(body))
+    return _uniq(re.findall(r"OwnedTerm::(\w+)\(", t))
+
+
+def _matched(body):
+    """`OwnedTerm::X` in match-arm pattern position; arms under `#[cfg(feature = …)]` (not compiled by default) removed."""
+    t = re.sub(r"#\[cfg\(feature\s*=\s*\"[^\"]*\"\)\]\s*OwnedTerm::\w+(?:\([^()]*\))?\s*(?:if[^=]*?)?=>[^\n]*\n", "", _strip(body))
+    return _uniq(re.findall(r"OwnedTerm::(\w+)(?:\([^()]*\))?\s*(?:if[^=>]*(?:==[^=>]*)?)?=>", t))
+
+
+def gen_c15(read, num):
+    """C15 part: the type-mapping tables of erltf_serde — which term constructor every `serialize_*` builds, which
+    constructors every `deserialize_*` matches on, the atom names of bool / unit / None, the digit limit of
+    `integer_term_as`, the Elixir struct key and module prefix of the derive macro."""
+    broken = []
+    lines = []
+    ser = read("crates/erltf_serde/src/ser.rs")
+    de = read("crates/erltf_serde/src/de.rs")
+    drv = read("crates/erltf_serde_derive/src/lib.rs")
+    ser_top = []     # (method, [constructors in `Ok(OwnedTerm::X(`])
+    ser_parts = []   # (compound trait, [constructors built anywhere in its impl])
+    atoms = {"TRUE": "", "FALSE": "", "UNIT": "", "NONE": "", "DE_TRUE": "", "DE_FALSE": "", "DE_UNIT": "", "DE_NONE": ""}
+    u64_split = False
+    key_ctor = ""
+    scalars = ["bool", "i8", "i16", "i32", "i64", "u8", "u16", "u32", "u64", "f32", "f64", "char", "str", "bytes", "none",
+               "unit", "unit_struct", "unit_variant", "newtype_variant"]
+    compounds = ["SerializeSeq", "SerializeTuple", "SerializeTupleStruct", "SerializeTupleVariant", "SerializeMap",
+                 "SerializeStruct", "SerializeStructVariant"]
+    transparent = []
+    wide_overridden = []
+    if ser is None:
+        broken.append("ser.rs missing")
+    else:
+        body = _impl_body(ser, r"impl\s+SerdeSerializer\s+for\s+&mut\s+Serializer\s*\{")
+        if body is None:
+            broken.append("impl SerdeSerializer for &mut Serializer not found in ser.rs")
+        else:
+            fns = _fns(body, "serialize_")
+            for m in scalars:
+                if m not in fns:
+                    broken.append(f"fn serialize_{m} not found in ser.rs")
+                    continue
+                b = fns[m]
+                if m == "none":
+                    mm = re.search(r"#\[cfg\(not\(feature\s*=\s*\"elixir-interop\"\)\)\]\s*\{(.*?)\}", b, re.S)
+                    if not mm:
+                        broken.append("serialize_none: branch for the default features not found")
+                        continue
+                    b = mm.group(1)
+                    a = re.search(r"Atom::new\(\"([^\"]*)\"\)", b)
+                    atoms["NONE"] = a.group(1) if a else ""
+                    if not a:
+                        broken.append("serialize_none: atom name not found")
+                tops = _uniq(re.findall(r"Ok\(\s*OwnedTerm::(\w+)\(", _strip(b)))
+                if not tops:
+                    broken.append(f"serialize_{m}: no `Ok(OwnedTerm::X(` found")
+                ser_top.append((m, tops))
+            for m in ("some", "newtype_struct"):
+                if m in fns and re.search(r"value\s*\.\s*serialize\s*\(\s*self\s*\)", fns[m]):
+                    transparent.append(m)
+                else:
+                    broken.append(f"serialize_{m} no longer forwards to the inner value")
+            for m in ("i128", "u128"):
+                if m in fns:
+                    wide_overridden.append(m)
+            mm = re.search(r"if\s+v\s*\{\s*\"([^\"]*)\"\s*\}\s*else\s*\{\s*\"([^\"]*)\"\s*\}", fns.get("bool", ""))
+            if mm:
+                atoms["TRUE"], atoms["FALSE"] = mm.group(1), mm.group(2)
+            else:
+                broken.append("serialize_bool: `if v { \"true\" } else { \"false\" }` shape not found")
+            mm = re.search(r"Atom::new\(\"([^\"]*)\"\)", fns.get("unit", ""))
+            if mm:
+                atoms["UNIT"] = mm.group(1)
+            else:
+                broken.append("serialize_unit: atom name not found")
+            u64_split = bool(re.search(r"if\s+v\s*<=\s*i64::MAX\s+as\s+u64\s*\{\s*Ok\(OwnedTerm::Integer\(v as i64\)\)\s*\}\s*else\s*\{",
+                                       fns.get("u64", "")))
+            if not u64_split:
+                broken.append("serialize_u64: `if v <= i64::MAX as u64 { Ok(OwnedTerm::Integer(v as i64)) } else {` not found")
+            if not re.search(r"let\s+le_bytes\s*=\s*v\.to_le_bytes\(\);\s*let\s+digits\s*=\s*le_bytes\.to_vec\(\);\s*Ok\(OwnedTerm::BigInt\(BigInt::new\(false,\s*digits\)\)\)",
+                             fns.get("u64", "")):
+                broken.append("serialize_u64: the big integer is no longer `BigInt::new(false, v.to_le_bytes().to_vec())`")
+        for tr in compounds:
+            ty = re.search(r"type\s+" + tr + r"\s*=\s*(\w+)\s*;", ser)
+            if not ty:
+                broken.append(f"type {tr} = …; not found in ser.rs")
+                continue
+            ib = _impl_body(ser, r"impl\s+ser::" + tr + r"\s+for\s+" + ty.group(1) + r"\s*\{")
+            if ib is None:
+                broken.append(f"impl ser::{tr} for {ty.group(1)} not found in ser.rs")
+                continue
+            ser_parts.append((tr, sorted(_built(ib))))
+            endb = _fn_body(ib, r"\bfn\s+end\s*\(")
+            tops = _uniq(re.findall(r"Ok\(\s*OwnedTerm::(\w+)\(", _strip(endb or "")))
+            if not tops:
+                broken.append(f"{tr}::end: no `Ok(OwnedTerm::X(` found")
+            ser_top.append((tr, tops))
+            if tr in ("SerializeStruct", "SerializeStructVariant"):
+                k = re.search(r"let\s+key_term\s*=\s*OwnedTerm::(\w+)\(key\.as_bytes\(\)\.to_vec\(\)\);", ib)
+                if not k:
+                    broken.append(f"{tr}::serialize_field: `let key_term = OwnedTerm::X(key.as_bytes().to_vec());` not found")
+                elif key_ctor and key_ctor != k.group(1):
+                    broken.append("struct and struct-variant field keys use different constructors")
+                else:
+                    key_ctor = k.group(1)
+    de_arms = []   # (method, [constructors matched])
+    big_digits = 0
+    de_methods = ["bool", "i8", "i16", "i32", "i64", "u8", "u16", "u32", "u64", "f32", "f64", "char", "str", "string", "bytes",
+                  "byte_buf", "unit", "unit_struct", "seq", "tuple", "tuple_struct", "map", "struct", "enum", "identifier"]
+    if de is None:
+        broken.append("de.rs missing")
+    else:
+        body = _impl_body(de, r"impl<'de>\s+SerdeDeserializer<'de>\s+for\s+&mut\s+Deserializer<'de>\s*\{")
+        ita = _fn_body(de, r"\bfn\s+integer_term_as\s*<")
+        exp = _fn_body(de, r"\bfn\s+expect_atom\s*\(")
+        if body is None or ita is None or exp is None:
+            broken.append("impl SerdeDeserializer for &mut Deserializer / fn integer_term_as / fn expect_atom not found in de.rs")
+        else:
+            fns = _fns(body, "deserialize_")
+            ita_arms = _matched(ita)
+            exp_arms = _matched(exp)
+            mm = re.search(r"if\s+significant\s*>\s*([0-9_]+)\s*\{", ita)
+            if mm:
+                big_digits = num(mm.group(1))
+            else:
+                broken.append("integer_term_as: `if significant > <n> {` not found")
+            if not re.search(r"rposition\(\|&d\|\s*d\s*!=\s*0\)\s*\.map_or\(0,\s*\|pos\|\s*pos\s*\+\s*1\)", re.sub(r"\s+", " ", ita)):
+                broken.append("integer_term_as: significant digits are no longer `rposition(|&d| d != 0).map_or(0, |pos| pos + 1)`")
+            if not re.search(r"T::try_from\(value\)", ita):
+                broken.append("integer_term_as: result is no longer `T::try_from(value)`")
+
+            def arms_of(m, seen=()):
+                b = fns.get(m)
+                if b is None:
+                    broken.append(f"fn deserialize_{m} not found in de.rs")
+                    return []
+                t = _strip(b)
+                d = re.fullmatch(r"\s*self\.deserialize_(\w+)\(visitor\)\s*", t)
+                if d and d.group(1) not in seen:
+                    return arms_of(d.group(1), seen + (m,))
+                if "integer_term_as(" in t:
+                    if not re.search(r"visitor\.visit_" + m + r"\(integer_term_as\(self\.term,", t):
+                        broken.append(f"deserialize_{m}: no longer `visitor.visit_{m}(integer_term_as(self.term, …)?)`")
+                    return ita_arms
+                if "self.expect_atom(" in t:
+                    return exp_arms
+                return _matched(t)
+
+            for m in de_methods:
+                de_arms.append((m, sorted(arms_of(m))))
+            b = fns.get("bool", "")
+            if re.search(r"\"true\"\s*=>\s*visitor\.visit_bool\(true\)", b) and re.search(r"\"false\"\s*=>\s*visitor\.visit_bool\(false\)", b):
+                atoms["DE_TRUE"], atoms["DE_FALSE"] = "true", "false"
+            else:
+                broken.append("deserialize_bool: arms `\"true\" => visit_bool(true)`, `\"false\" => visit_bool(false)` not found")
+            mm = re.search(r"self\.expect_atom\(\"([^\"]*)\"\)", fns.get("unit", ""))
+            if mm:
+                atoms["DE_UNIT"] = mm.group(1)
+            else:
+                broken.append("deserialize_unit: `self.expect_atom(\"…\")` not found")
+            mm = re.search(r"^\s*OwnedTerm::Atom\(atom\)\s+if\s+atom\.as_str\(\)\s*==\s*\"([^\"]*)\"\s*=>\s*visitor\.visit_none\(\),\s*\n\s*#\[cfg",
+                           _strip(fns.get("option", "")), re.M)
+            if mm and re.search(r"_\s*=>\s*visitor\.visit_some\(self\)", fns.get("option", "")):
+                atoms["DE_NONE"] = mm.group(1)
+            else:
+                broken.append("deserialize_option: `OwnedTerm::Atom(atom) if atom.as_str() == \"…\" => visit_none()` then `_ => visit_some(self)` not found")
+            if "newtype_struct" not in fns or not re.search(r"visitor\.visit_newtype_struct\(self\)", fns["newtype_struct"]):
+                broken.append("deserialize_newtype_struct no longer forwards to the inner value")
+            for m in ("i128", "u128"):
+                if m in fns:
+                    wide_overridden.append("de_" + m)
+    struct_key = ""
+    prefix = ""
+    if drv is None:
+        broken.append("erltf_serde_derive/src/lib.rs missing")
+    else:
+        mm = re.search(r"format!\(\"([^\"{}]*)\{\}\",\s*module_name\)", drv)
+        if mm:
+            prefix = mm.group(1)
+        else:
+            broken.append("derive: `format!(\"Elixir.{}\", module_name)` not found")
+        ks = _uniq(re.findall(r"AtomKey\(\"([^\"]*)\"\)", drv))
+        ds = _uniq(re.findall(r"^\s*\"(__[a-z_]*__)\"\s*=>\s*\{", drv, re.M))
+        if len(ks) == 1 and ds == ks:
+            struct_key = ks[0]
+        else:
+            broken.append("derive: the struct key written (`AtomKey(\"__struct__\")`) and the one matched on reading differ or were not found")
+        if not re.search(r"#field\s*=\s*Some\(map\.next_value\(\)\?\);", drv):
+            broken.append("derive: field assignment `#field = Some(map.next_value()?);` not found")
+        if not re.search(r"ok_or_else\(\|\|\s*serde::de::Error::missing_field\(#name_str\)\)\?", drv):
+            broken.append("derive: `missing_field` for an absent field not found")
+
+    def strs(xs):
+        return "[" + ", ".join('"' + x + '"' for x in xs) + "]"
+
+    def table(rows):
+        return "[" + ", ".join('("' + a + '", ' + strs(b) + ")" for a, b in rows) + "]"
+
+    def bytes_of(s_):
+        return "[" + ", ".join(str(b) for b in s_.encode("utf-8")) + "]"
+
+    lines.append("/-- ser.rs: the constructors in `Ok(OwnedTerm::X(` of every scalar `serialize_*` and of the `end` of every compound serializer -/")
+    lines.append(f"def C15_SER_TOP : List (String × List String) := {table(ser_top)}")
+    lines.append("/-- ser.rs: every constructor built anywhere in the impl of a compound serializer (sorted) -/")
+    lines.append(f"def C15_SER_PARTS : List (String × List String) := {table(ser_parts)}")
+    lines.append("/-- ser.rs: `serialize_*` methods that forward to the inner value -/")
+    lines.append(f"def C15_SER_TRANSPARENT : List String := {strs(transparent)}")
+    lines.append("/-- ser.rs / de.rs: 128-bit methods overridden (none: serde's defaults report `i128 is not supported`) -/")
+    lines.append(f"def C15_WIDE_OVERRIDDEN : List String := {strs(wide_overridden)}")
+    lines.append("/-- ser.rs: constructor of a struct field's key -/")
+    lines.append(f"def C15_STRUCT_FIELD_KEY_CTOR : String := \"{key_ctor}\"")
+    lines.append("/-- ser.rs: `serialize_u64` writes an `Integer` up to `i64::MAX` and an 8-digit positive `BigInt` above -/")
+    lines.append(f"def C15_U64_SPLIT_AT_I64_MAX : Bool := {'true' if u64_split else 'false'}")
+    lines.append("/-- de.rs: constructors every `deserialize_*` matches on (through `integer_term_as`, `expect_atom` and forwarding; sorted) -/")
+    lines.append(f"def C15_DE_ARMS : List (String × List String) := {table(de_arms)}")
+    lines.append("/-- de.rs `integer_term_as`: a big integer with more significant digits than this is out of range -/")
+    lines.append(f"@[simp] def C15_BIG_MAX_DIGITS : Nat := {big_digits}")
+    for k in ("TRUE", "FALSE", "UNIT", "NONE", "DE_TRUE", "DE_FALSE", "DE_UNIT", "DE_NONE"):
+        lines.append(f"/-- atom name \"{atoms[k]}\" ({'de.rs' if k.startswith('DE_') else 'ser.rs'}) -/")
+        lines.append(f"@[simp] def C15_ATOM_{k} : List UInt8 := {bytes_of(atoms[k])}")
+    lines.append("/-- erltf_serde_derive: the key under which `derive(ElixirStruct)` writes and expects the module -/")
+    lines.append(f"@[simp] def C15_EX_STRUCT_KEY : List UInt8 := {bytes_of(struct_key)}")
+    lines.append("/-- erltf_serde_derive: prefix of the module atom -/")
+    lines.append(f"@[simp] def C15_EX_MODULE_PREFIX : List UInt8 := {bytes_of(prefix)}")
+    lines.append("")
+    return lines, broken
+
+
 def run(read, emit, num):
     body = "namespace Edp.Gen\n\n"
     broken = []
-    for part in (gen_c16, gen_c09, gen_c04):
+    for part in (gen_c16, gen_c09, gen_c04, gen_c15):
         ls, br = part(read, num)
         body += "\n".join(ls) + "\n"
         broken += br
